@@ -99,6 +99,36 @@ def session_names(fn):
     return names
 
 
+_INVARIANT_CACHE = {}
+
+
+def invariant_of_test(prog, rep, fn, test):
+    """Facts an invariant established elsewhere fixes; one entry, confirmed by reading and re-checked on every run:
+
+    get_matching_nodes_with_components: ``<device>.resource_type`` is never None. The devices come from an
+    AttachedComponentsInfo, and AttachedComponentsInfo.add_device asserts ``resource_type is not None`` before it stores a
+    device; so the branch "the component has no type" (which, together with "no model", would leave the component map of
+    the statement without any entry) is dead. If that assertion disappears the assumption is withdrawn.
+    Called by the template builder with an attribute expression: True = the value is never None."""
+    if fn.name != 'get_matching_nodes_with_components':
+        return None
+    if not (isinstance(test, ast.Attribute) and test.attr == 'resource_type'):
+        return None
+    if 'aci' not in _INVARIANT_CACHE or _INVARIANT_CACHE['aci'][0] is not prog:
+        ok = False
+        try:
+            aci = prog.cls('fim.slivers.attached_components:AttachedComponentsInfo')
+            ad = aci.methods.get('add_device')
+            par = [a.arg for a in ad.args.args if a.arg != 'self'][0]
+            ok = any(isinstance(a, ast.Assert) and ast.unparse(a.test) == f'{par}.resource_type is not None' for a in ast.walk(ad))
+        except Exception:
+            ok = False
+        _INVARIANT_CACHE['aci'] = (prog, ok)
+        rep.note(f'assumption used for get_matching_nodes_with_components: device types are never None '
+                 f'(AttachedComponentsInfo.add_device asserts it: {ok})')
+    return True if _INVARIANT_CACHE['aci'][1] else None
+
+
 def find_run_calls(fn):
     out = []
     sess = session_names(fn)
@@ -178,7 +208,8 @@ def run(prog, rep):
 
             def module_const(name, _mod=m):
                 return _mod.assigns.get(name)
-            interp = Interp(fn, resolver=resolver, module_const=module_const, unroll=UNROLL, max_paths=(512 if len(UNROLL) <= 2 else 60000))
+            interp = Interp(fn, resolver=resolver, module_const=module_const, unroll=UNROLL, max_paths=(512 if len(UNROLL) <= 2 else 60000),
+                            assume=(lambda t_, _fn=fn: invariant_of_test(prog, rep, _fn, t_)))
             try:
                 sites = interp.run()
             except AnalysisError as e:
